@@ -11,6 +11,7 @@ import (
 	"runtime"
 	"strings"
 	"sync"
+	"syscall"
 	"time"
 
 	"github.com/emersion/go-webdav"
@@ -36,6 +37,10 @@ type uploadCase struct {
 	// last-chunk. Only with 2xx answers and After "hold": the answer (status
 	// line and headers) is there, its body never completes.
 	AnswerBody string `json:"answer_body,omitempty"`
+	// Interim: an interim response the server sends before the final answer
+	// ("100" = an unsolicited 100 Continue, "103" = Early Hints). The answer
+	// the statement speaks of is the final one.
+	Interim string `json:"interim,omitempty"`
 }
 
 type event struct {
@@ -169,6 +174,19 @@ func (s *scriptedServer) serve() {
 			return
 		}
 		body := "scripted answer"
+		switch s.cs.Interim {
+		case "100":
+			fmt.Fprintf(conn, "HTTP/1.1 100 Continue\r\n\r\n")
+		case "103":
+			fmt.Fprintf(conn, "HTTP/1.1 103 Early Hints\r\nLink: </style.css>; rel=preload\r\n\r\n")
+		}
+		extra := ""
+		if s.cs.After == "close" {
+			extra += "Connection: close\r\n"
+		}
+		if s.cs.Status/100 == 3 {
+			extra += "Location: /moved-elsewhere\r\n"
+		}
 		switch s.cs.AnswerBody {
 		case "cl-short":
 			fmt.Fprintf(conn, "HTTP/1.1 %d %s\r\nContent-Type: text/plain\r\nContent-Length: 100000\r\n\r\n%s", s.cs.Status, http.StatusText(s.cs.Status), body)
@@ -176,7 +194,7 @@ func (s *scriptedServer) serve() {
 			fmt.Fprintf(conn, "HTTP/1.1 %d %s\r\nContent-Type: text/plain\r\nTransfer-Encoding: chunked\r\n\r\n%x\r\n%s\r\n", s.cs.Status, http.StatusText(s.cs.Status), len(body), body)
 		default:
 			fmt.Fprintf(conn, "HTTP/1.1 %d %s\r\nContent-Type: text/plain\r\nContent-Length: %d\r\n%s\r\n%s",
-				s.cs.Status, http.StatusText(s.cs.Status), len(body), map[bool]string{true: "Connection: close\r\n", false: ""}[s.cs.After == "close"], body)
+				s.cs.Status, http.StatusText(s.cs.Status), len(body), extra, body)
 		}
 		s.rec.add("server", "answered", fmt.Sprint(s.cs.Status))
 	}
@@ -369,6 +387,17 @@ func execUpload(c *fw.Ctx, cs uploadCase) {
 	}
 	defer srv.close()
 	tr := &http.Transport{DisableKeepAlives: true}
+	if cs.Script == "no-listener" {
+		// nobody listens: the inner client's Do fails at once (the dial is
+		// refused), without a connection and without reading the body. The
+		// refusal is produced in the dialer, so that a port somebody else has
+		// taken meanwhile is never contacted.
+		srv.ln.Close()
+		<-srv.finished
+		tr.DialContext = func(ctx context.Context, network, addr string) (net.Conn, error) {
+			return nil, &net.OpError{Op: "dial", Net: network, Err: syscall.ECONNREFUSED}
+		}
+	}
 	defer tr.CloseIdleConnections()
 	rc := &recClient{inner: &http.Client{Transport: tr}, rec: rec}
 	cl, err := webdav.NewClient(rc, "http://"+srv.ln.Addr().String()+"/")
@@ -512,10 +541,13 @@ wait:
 	}
 	c.JournalDone()
 	c.Eval(1)
-	c.Distinct(fmt.Sprintf("%s|%d|k=%s|%s|size=%d|chunk=%d|%s|cancel=%d|%s", cs.Script, cs.Status, kClass(cs), cs.After, cs.Size, cs.Chunk, cs.Caller, cs.CancelAfter, cs.AnswerBody))
+	c.Distinct(fmt.Sprintf("%s|%d|k=%s|%s|size=%d|chunk=%d|%s|cancel=%d|%s|%s", cs.Script, cs.Status, kClass(cs), cs.After, cs.Size, cs.Chunk, cs.Caller, cs.CancelAfter, cs.AnswerBody, cs.Interim))
 	cellKey := fmt.Sprintf("upload|%s|status=%d|%s", cs.Script, cs.Status, cs.After)
 	if cs.AnswerBody != "" {
 		cellKey += "|answer-body-" + cs.AnswerBody
+	}
+	if cs.Interim != "" {
+		cellKey += "|after-interim-" + cs.Interim
 	}
 	wit := func() interface{} {
 		return map[string]interface{}{"case": cs, "events": rec.dump(), "written": res.written, "write_errors": res.writeErrs, "first_write_error": res.firstWErr, "close_error": fw.ErrString(res.closeErr)}
@@ -655,6 +687,15 @@ func uploadMatrix(thorough bool) []uploadCase {
 					add(uploadCase{Script: "read-all-then-answer", Status: 201, ReadK: -1, After: "hold", AnswerBody: ab})
 					add(uploadCase{Script: "answer-before-reading", Status: 200, After: "hold", AnswerBody: ab})
 				}
+				// interim responses before the final answer; a redirect the
+				// client cannot follow (the body is a stream); nobody listens
+				for _, in := range []string{"100", "103"} {
+					add(uploadCase{Script: "read-all-then-answer", Status: 201, ReadK: -1, After: "close", Interim: in})
+					add(uploadCase{Script: "answer-before-reading", Status: 403, After: "drain", Interim: in})
+				}
+				add(uploadCase{Script: "read-all-then-answer", Status: 307, ReadK: -1, After: "close"})
+				add(uploadCase{Script: "answer-before-reading", Status: 307, After: "drain"})
+				add(uploadCase{Script: "no-listener"})
 				ks := []int{0}
 				if size > 10 {
 					ks = []int{0, 1000, size / 2}
